@@ -14,7 +14,7 @@ RULE = ("Differential: every Hypothesis-generated scenario (operation sequences 
         "operation. A second part plays one generated peer script to TcpTransport and TcpTransportAsync over loopback (see C18). Non-trivial: >= 2 operations, or a fault/stall/auth plan. Distinct = case hash.")
 ASSUMPTIONS = ["device decisions are indexed by device event, not by host read, so both runs face the same adversary", "in-memory transports; virtual clock"]
 
-FAULT_KINDS = ["r_timeout", "r_reset", "eof", "r_short_raise", "w_pipe", "w_partial_raise", "w_timeout"]
+FAULT_KINDS = ["r_timeout", "r_reset", "eof", "r_short_raise", "r_short_eof", "w_pipe", "w_partial_raise", "w_timeout"]
 
 
 @st.composite
